@@ -45,3 +45,29 @@ template <int DIM> void canon_add(Canon &c, const SepticSplineND<DIM> &s) { c.ta
 template <class T> std::string canon_of(const T &x) { Canon c; canon_add(c, x); return c.s; }
 
 } // namespace vf
+
+#include "SplineOptimizer.hpp"
+namespace vf {
+template <int ORD, class G> void canon_add_grads(Canon &c, const G &g) {
+  c.mat(g.inner_points); c.mat(g.times); c.mat(g.start.p); c.mat(g.start.v); c.mat(g.end.p); c.mat(g.end.v);
+  if constexpr (ORD >= 5) { c.mat(g.start.a); c.mat(g.end.a); }
+  if constexpr (ORD >= 7) { c.mat(g.start.j); c.mat(g.end.j); }
+}
+template <class WS> void canon_add_ws(Canon &c, const WS &w) {
+  c.tag("WS"); canon_add(c, w.spline); c.vec(w.cache_times); c.mat(w.cache_waypoints); c.mat(w.cache_gdT); c.mat(w.cache_gdC); c.mat(w.user_gdT_buffer);
+  constexpr int ORD = std::decay<decltype(w.spline)>::type::ORDER; canon_add_grads<ORD>(c, w.grads); canon_add_grads<ORD>(c, w.energy_grads);
+  c.mat(w.explicit_time_grad_buffer); c.mat(w.discrete_grad_q_buffer); c.vec(w.segment_start_times); c.vec(w.segment_costs);
+}
+// optimizer: all private members; pointers only by ROLE (own default map / a user map / null), never by address
+template <class Opt> void canon_add_opt(Canon &c, const Opt &o, bool with_ws_contents) {
+  c.tag("OPT"); c.vec(o.ref_times_); c.mat(o.ref_waypoints_); canon_add(c, o.ref_bc_); c.d(o.start_time_);
+  c.i(o.flags_.start_p | o.flags_.start_v << 1 | o.flags_.start_a << 2 | o.flags_.start_j << 3 | o.flags_.end_p << 4 | o.flags_.end_v << 5 | o.flags_.end_a << 6 | o.flags_.end_j << 7);
+  c.i(o.num_segments_); c.i(o.is_valid_); c.d(o.rho_energy_); c.i(o.integral_num_steps_);
+  c.i(o.active_time_map_ == &o.default_time_map_ ? 0 : o.active_time_map_ == nullptr ? 2 : 1);
+  c.i(o.active_spatial_map_ == &o.default_spatial_map_ ? 0 : o.active_spatial_map_ == nullptr ? 2 : 1);
+  c.i(o.internal_ws_ ? 1 : 0); if (o.internal_ws_ && with_ws_contents) canon_add_ws(c, *o.internal_ws_);
+  c.i((long)o.last_error_message_.size());
+  c.i((long)o.spatial_layout_.size()); for (auto &v : o.spatial_layout_) { c.i(v.point_index); c.i(v.offset); c.i(v.dof); }
+  c.i(o.derivatives_offset_); c.i(o.total_dimension_); c.i((bool)o.layout_dirty_);
+}
+} // namespace vf
